@@ -83,6 +83,7 @@ def shrink_cases(prop, cases, use_pinned):
     out = []
     for c in cases[:3]:
         items = c['op'].split(' ')
+        if str(c.get('meta', {}).get('k', '')).startswith('magic:'): out.append(c); continue      # built around a literal: kept as it is
         if len(items) == 3 and items[2].startswith('b') and len(items[2]) > 9 and not c.get('meta', {}).get('gen'):
             try: best = bytes.fromhex(items[2][1:])
             except ValueError: out.append(c); continue
